@@ -69,7 +69,6 @@ def run_find_snv_candidates(
     if datatype == "illumina":
         minabs = 3
         minrel = 0.25
-    print(minabs, minrel)
     fasta = pyfaidx.Fasta(ref, as_raw=True)
     print("##fileformat=VCFv4.2", file=outfile)
     print("##fileDate={}".format(datetime.datetime.now().strftime("%Y%m%d")), file=outfile)
